@@ -87,6 +87,21 @@ def run(ctx):
                 if dev > 2e-4:
                     viol("range-dependence", f"{model}: P(k) on lnk in [{lo},{hi}] (dlnk={d}) differs from the wide-grid value at the same wavenumbers by {dev:.3g} in ln P",
                          {"model": model, "lnk_min": lo, "lnk_max": hi, "dlnk": d})
+        # the default transfer model (CAMB: a table extended beyond its k range) — wide grid vs a grid starting inside CAMB's table
+        try:
+            import camb  # noqa
+            ref = Transfer(transfer_model="CAMB", lnk_min=-18.0, lnk_max=9.0, dlnk=0.05)
+            lref = Spl(np.log(ref.k), np.log(ref.power), k=3)
+            for (lo, hi) in [(-6.0, 8.0)] + ([] if quick else [(-8.0, 8.0), (-4.0, 2.0)]):
+                t = Transfer(transfer_model="CAMB", lnk_min=lo, lnk_max=hi, dlnk=0.05)
+                dl = np.abs(np.log(t.power) - lref(np.log(t.k)))
+                nrange += 1
+                if dl.max() > 2e-3:
+                    i_ = int(np.argmax(dl))
+                    viol("range-dependence/CAMB", f"CAMB: P(k) at k={t.k[i_]:.4g} on lnk in [{lo},{hi}] differs from the value on the wide grid [-18,9] by {dl[i_]:.3g} in ln P",
+                         {"model": "CAMB", "lnk_min": lo, "lnk_max": hi, "k": float(t.k[i_])})
+        except ImportError:
+            out["assumptions"].append("CAMB not importable: range independence not exercised for the default transfer model")
         # MassFunction: normalisation does not depend on its smoothing filter; sigma(m) linear in sigma_8 and growth
         for filt in ("TopHat", "Gaussian", "SharpK"):
             kw = dict(transfer_model="EH", lnk_min=np.log(1e-7), lnk_max=np.log(1e4), dlnk=0.05, Mmin=11.0, Mmax=14.0, dlog10m=0.5, filter_model=filt)
